@@ -28,6 +28,8 @@ pub const BIT_NEGATE: u32 = 20;
 pub const BIT_INDEX: u32 = 21;
 pub const BIT_CALL: u32 = 22;
 pub const BIT_DISPLAY: u32 = 23;
+/// overrides `less_or_equal` with an answer (always true) that differs from `less || equal`
+pub const BIT_LESS_OR_EQUAL: u32 = 24;
 
 #[derive(Clone, Debug, KotoCopy, KotoType)]
 #[koto(runtime = koto_runtime)]
@@ -215,6 +217,15 @@ impl KotoObject for HostObj {
             Ok(false)
         } else {
             self.unimpl("@<")
+        }
+    }
+    fn less_or_equal(&self, o: &KValue) -> Result<bool> {
+        if self.has(BIT_LESS_OR_EQUAL) {
+            out(format!("('host@<=', '{}', {})", self.tag, rp(o)));
+            Ok(true)
+        } else {
+            // the documented default
+            Ok(self.less(o)? || self.equal(o)?)
         }
     }
     fn equal(&self, o: &KValue) -> Result<bool> {
